@@ -272,4 +272,38 @@ theorem reuse_eq_fresh {Out : Type} (F : Nat → (Read → Val) → Args → Out
   rw [h2]
   congr 2
 
+/-! ### (5) results derived from a caller-owned table are found again by its values only -/
+
+/-- no function of the parameterised system / the gradient module recognises a parameter table
+    by its identity (`is`, `id()`, a kept reference) -/
+theorem arg_table : ∀ s ∈ argStores, argStoreOK s = true := by decide
+
+/-- **arg_store_sound.**  For every listed function, every body `f` of the table's values and
+    every history in which the caller creates tables, edits them in place, calls the function and
+    the store forgets entries: a call with table `t` returns `f` of the values `t` holds *now*,
+    and leaves all of the caller's tables as they are. -/
+theorem arg_store_sound {Out : Type} (s : ArgStore) (hs : s ∈ argStores) (f : List Val → Out)
+    (hist : List TOp) (t : Nat) (c : List Val)
+    (ht : (runT s.kind f initT hist).tables[t]? = some c) :
+    (stepT s.kind f (runT s.kind f initT hist) (.call t)).2 = some (f c) ∧
+    (stepT s.kind f (runT s.kind f initT hist) (.call t)).1.tables
+      = (runT s.kind f initT hist).tables := by
+  have hk : s.kind ≠ .identity := by
+    have := arg_table s hs
+    simpa [argStoreOK] using this
+  exact ⟨tcall_sound s.kind f hk _ (tinv_run s.kind f hk hist initT (tinv_init f)) t c ht,
+    tcall_keeps_tables s.kind f _ t⟩
+
+/-- non-vacuity, and the optimisation-loop scenario: call, edit the same table in place, call
+    again — a store keyed on the values answers with the new values … -/
+example :
+    outsT .content (fun c => c) initT [.newTable [1, 2], .call 0, .mutate 0 [7, 2], .call 0]
+    = [none, some [1, 2], none, some [7, 2]] := by decide
+
+/-- … a store keyed on the table's identity answers with the old ones (what the obligation
+    `arg_table` excludes) -/
+example :
+    outsT .identity (fun c => c) initT [.newTable [1, 2], .call 0, .mutate 0 [7, 2], .call 0]
+    = [none, some [1, 2], none, some [1, 2]] := by decide
+
 end OQuPyVerif.Props.C20
